@@ -463,7 +463,8 @@ for _p, _g in CODE_TIE.items():
 ON_CODE = {'C05': ['Client'], 'C06': ['Client'], 'C14': ['Client'], 'C07': ['Extract', 'Updater'], 'C10': ['Extract'],
            'C08': ['Dispatch', 'Pipeline'], 'C09': ['Dispatch', 'Pipeline'], 'C19': ['Drift', 'Updater'],
            'C12': ['Poller', 'Now'], 'C13': ['Poller', 'Pipeline'],
-           'C01': ['Client', 'Extract', 'Updater', 'Dispatch', 'Drift', 'Poller', 'Now', 'Pipeline']}
+           'C01': ['Client', 'Extract', 'Updater', 'Dispatch', 'Drift', 'Poller', 'Now', 'Pipeline'],
+           'C15': ['Threads']}
 # [errors] the two client APIs: C14 at the API level, C17 (same answer, enums as published), C16/C17 open through both APIs
 for _p, _g in {'C14': ['Errors'], 'C16': ['Open'], 'C17': ['Errors', 'Open']}.items():
     ON_CODE[_p] = ON_CODE.get(_p, []) + _g
